@@ -29,6 +29,8 @@ import Kanzi.Drv.LZ
 import Kanzi.Drv.TPAQ
 import Kanzi.Drv.Huffman
 import Kanzi.Drv.UTF
+import Kanzi.Drv.BWTS
+import Kanzi.Drv.ImageGen2
 
 open Kanzi
 
@@ -207,5 +209,7 @@ def main (args : List String) : IO UInt32 := do
   | ["tpaqpred"] => loop stdin stdout Kanzi.Drv.tpaqpred; return 0
   | ["huffman"] => loop stdin stdout Kanzi.Drv.huffman; return 0
   | ["utf"] => loop stdin stdout Kanzi.Drv.utf; return 0
+  | ["bwts"] => loop stdin stdout Kanzi.Drv.bwts; return 0
+  | ["imagegen2"] => loop stdin stdout Kanzi.Drv.imagegen2; return 0
   | ["image"] => loop stdin stdout Kanzi.Drv.image; return 0
   | _ => IO.eprintln "usage: kmodel <norm>"; return 2
